@@ -119,9 +119,8 @@ def unesc(s):
 def asan_env(extra=''):
   env = dict(os.environ)
   env['LD_PRELOAD'] = vb.ASAN_RT
-  env['ASAN_OPTIONS'] = ('detect_leaks=0:abort_on_error=1:symbolize=1:handle_abort=1:allocator_may_return_null=0:'
+  env['ASAN_OPTIONS'] = ('detect_leaks=0:abort_on_error=1:symbolize=0:handle_abort=1:allocator_may_return_null=0:'
                          'max_allocation_size_mb=2048:detect_stack_use_after_return=0' + extra)
-  env['ASAN_SYMBOLIZER_PATH'] = shutil.which('llvm-symbolizer') or ''
   env.pop('MUJOCO_LOG_TOPICS', None)
   return env
 
@@ -261,10 +260,87 @@ def short_fn(fn):
   return fn.split(' ')[-1]
 
 
+class Symbolizer:
+  """One persistent llvm-symbolizer process. The sanitizer runs with symbolize=0 (an in-process symbolizer would be
+  started by every crashing child and load the DWARF of the whole library each time; MuJoCo's own ASan-mode
+  mark/free check also calls the symbolizer on the hot path), reports are symbolized here."""
+  inst = None
+
+  def __init__(self):
+    exe = shutil.which('llvm-symbolizer') or shutil.which('llvm-symbolizer-14')
+    if not exe:
+      raise RuntimeError('llvm-symbolizer not found')
+    self.p = subprocess.Popen([exe, '--demangle', '--inlines', '--functions=linkage'], stdin=subprocess.PIPE,
+                              stdout=subprocess.PIPE, stderr=subprocess.DEVNULL, text=True, bufsize=1)
+    self.cache = {}
+
+  @classmethod
+  def get(cls):
+    if cls.inst is None or cls.inst.p.poll() is not None:
+      cls.inst = Symbolizer()
+    return cls.inst
+
+  @classmethod
+  def close(cls):
+    if cls.inst is not None:
+      try:
+        cls.inst.p.stdin.close()
+        cls.inst.p.wait(timeout=10)
+      except Exception:
+        cls.inst.p.kill()
+      cls.inst = None
+
+  def lookup(self, module, off):
+    key = (module, off)
+    if key in self.cache:
+      return self.cache[key]
+    out = []
+    try:
+      self.p.stdin.write('%s %s\n' % (module, off))
+      self.p.stdin.flush()
+      lines = []
+      while True:
+        line = self.p.stdout.readline()
+        if not line or not line.strip():
+          break
+        lines.append(line.rstrip('\n'))
+      for i in range(0, len(lines) - 1, 2):
+        fn, loc = lines[i], lines[i + 1]
+        m = re.match(r'(.*?):(\d+)(?::\d+)?$', loc)
+        out.append((fn, m.group(1) if m else loc, m.group(2) if m else '0'))
+    except Exception:
+      out = []
+    self.cache[key] = out
+    return out
+
+
+def symbolize_report(text):
+  """Rewrite unsymbolized sanitizer frames '#N 0xPC (module+0xOFF)' as '#N 0xPC in FUNC FILE:LINE' (inlined frames expanded)."""
+  if '+0x' not in text:
+    return text
+  sym = None
+  out = []
+  nfr = 0
+  for line in text.split('\n'):
+    m = re.match(r'(\s*#\d+ 0x[0-9a-f]+) +\((/[^\s()]+)\+(0x[0-9a-f]+)\)', line)
+    if m and nfr < 60 and os.path.exists(m.group(2)) and ('libmujoco_vf' in m.group(2) or '/.cache/bin/' in m.group(2)):
+      nfr += 1
+      if sym is None:
+        sym = Symbolizer.get()
+      res = sym.lookup(m.group(2), m.group(3))
+      if res and res[0][0] != '??':
+        for fn, f, ln in res:
+          out.append('%s in %s %s:%s' % (m.group(1), fn, f, ln))
+        continue
+    out.append(line)
+  return '\n'.join(out)
+
+
 def classify_report(text):
   """-> dict(kind, where, frames, bucket, fingerprint, summary). where: repo | shim | harness | none | inconclusive"""
+  text = symbolize_report(text)
   repo = os.path.realpath(vb.REPO)
-  out = dict(kind='unknown', where='none', frames=[], bucket='', fingerprint='', summary='')
+  out = dict(kind='unknown', where='none', frames=[], bucket='', fingerprint='', summary='', text=text)
   m = re.search(r'VF-ORACLE: (.*)', text)
   if m:
     out.update(kind='oracle', where='repo', summary=m.group(1)[:400])
@@ -589,7 +665,7 @@ def handle_common(S, res, xml, origin, info=None):
     if c['where'] == 'none':
       c['fingerprint'] = 'crash-unclassified:' + c['kind']
     S.finding(c['fingerprint'], 'loader crashed (%s): %s' % (origin, c['summary']),
-              dict(origin=origin, xml=show(xml), info=info, report=res.report[-4000:], frames=c['frames'][:8]))
+              dict(origin=origin, xml=show(xml), info=info, report=c['text'][-4000:], frames=c['frames'][:8]))
     return True
   for esc in res.escapes:
     phase, kind, msg, site = esc
@@ -667,6 +743,7 @@ def main(ck):
     json.dump(dict(findings=[dict(property='C37', status='known', fingerprint=fp, what=S.finding_what[fp], hits=n)
                              for fp, n in sorted(S.findings.items())]), f, indent=1)
   ck.extra['wall_parts'] = dict(total=round(time.time() - t_start, 1))
+  Symbolizer.close()
 
 
 # ---------------------------------------------------------------------------------------------------------------------
@@ -728,16 +805,46 @@ def part_b(ck, S, g, exe_rel, exe_fuzz):
 
   asan_budget = [float(ck.budget(10, 300))]     # seconds of extra ASan executions of sampled documents
 
+  rel_sites = {}      # crash site in the rel worker -> (symbolized) ASan report of the first document that died there
+  max_reruns = ck.budget(30, 300)
+
+  def rel_site(report):
+    i = report.find('VF-CRASH')
+    names = []
+    if i >= 0:
+      for line in report[i:].split('\n')[1:]:
+        m = re.match(r'\S*libmujoco_vf\S*\(([^+()]+)\+0x', line)
+        if m:
+          names.append(m.group(1))
+    sig = re.search(r'signal (\d+)', report[report.rfind('[document child ended'):])
+    return (sig.group(1) if sig else '?',) + tuple(names[:4])
+
   def run(xml, parse_only, load=False, both=False):
-    """Run on the fast (rel) worker; a document that kills its child there is re-run under ASan for the report."""
+    """Run on the fast (rel) worker. A document that kills its child there is re-run under ASan for a report; the
+    re-run is done once per crash site of the rel build (stack printed by the worker's signal handler)."""
     r = fast.run(xml, load=load, parse_only=parse_only)
     if r.died and not r.timeout:
       stats['rel_child_deaths'] += 1
-      r2 = slow.run(xml, load=load, parse_only=parse_only, timeout=200)
-      if not r2.died:
-        S.finding('rel-crash-unreproduced', 'the rel build died on a document that the ASan build handles: %s' % r.report[-300:],
-                  dict(xml=show(xml)))
-      return r2
+      site = rel_site(r.report)
+      if site not in rel_sites:
+        if len(rel_sites) >= max_reruns:
+          S.inconclusive['rel-crash-not-rerun'] += 1
+          r.timeout = True
+          return r
+        r2 = slow.run(xml, load=load, parse_only=parse_only, timeout=200)
+        stats['asan_reruns'] += 1
+        if not r2.died:
+          S.finding('rel-crash-unreproduced:' + '|'.join(site)[:80],
+                    'the rel build died on a document that the ASan build handles: %s' % r.report[-600:], dict(xml=show(xml)))
+          rel_sites[site] = None
+          return r2
+        rel_sites[site] = symbolize_report(r2.report)
+        return r2
+      if rel_sites[site] is None:
+        r.timeout = True
+        return r
+      r.report = rel_sites[site] + '\n[report of the first document that crashed at the same site of the rel build: %s]' % (site,)
+      return r
     if both and asan_budget[0] > 0:
       t0 = time.time()
       r3 = slow.run(xml, load=load, parse_only=False, timeout=200)
@@ -953,7 +1060,7 @@ def part_a_collect(ck, S, slots, exe_fuzz):
         S.inconclusive['stack-overflow-large-input'] += 1
         continue
       S.finding(c['fingerprint'], 'loader crashed under the fuzzer: %s' % c['summary'],
-                dict(origin='fuzz', xml=show(data), artifact=arts[:1], frames=c['frames'][:8], report=text[text.find('ERROR:'):][:4000]))
+                dict(origin='fuzz', xml=show(data), artifact=arts[:1], frames=c['frames'][:8], report=c['text'][c['text'].find('ERROR:'):][:4000]))
   ck.extra['fuzz']['process_endings'] = dict(nterm)
   if execs < 50:
     raise RuntimeError('C37: fuzzers executed only %d inputs' % execs)
